@@ -23,6 +23,7 @@ from . import VERIF, REPO, symex, discharge, replay
 from .contract import REGISTRY, LEMMAS
 
 LEDGER = os.path.join(VERIF, "contracts", "ledger.json")
+OUT = os.environ.get("PYVC_OUT", VERIF)
 FINDINGS = os.path.join(VERIF, "known_findings.jsonl")
 CLAUSE_KINDS = ("ensures", "inv-init", "inv-preserve", "loop-post", "requires@call", "raises", "decreases", "lemma",
                 "wrapper", "frame-ok", "reach")
@@ -121,10 +122,13 @@ def run(pid, tier, seed, a, t0):
     lemma_obls = []
     for lm in LEMMAS.values():
         if pid in lm.props:
-            for sub, hyps, goal in lm.build():
-                o = symex.Obligation("lemma", "lemma", "%s.%s" % (lm.name, sub), None, hyps, goal, lm.notes, axioms=lm.axioms)
+            S = symex.SpecCtx(specmod, lm.axioms)
+            for sub, hyps, goal in lm.build(S):
+                o = symex.Obligation("lemma", "lemma", "%s.%s" % (lm.name, sub), None, hyps, goal, lm.notes)
                 o.contract = None
                 o.timeout = lm.timeout
+                o.defs = S.ex.defs
+                o.axioms = tuple(sorted(set(lm.axioms) | set(S.axioms)))
                 lemma_obls.append(o)
     allobls.extend(lemma_obls)
     # ------------------------------------------------------------- 3. extra obligation producers (wrappers, frames)
@@ -142,12 +146,17 @@ def run(pid, tier, seed, a, t0):
                 print("CHECKER-ERROR solver disagreement %s: %s" % (sv, r["disagree"]))
                 return 3
     for o in allobls:
+        if o.status == "error":
+            print("CHECKER-ERROR %s: %s" % (o.oid, o.detail))
+            return 3
         st = {"proved": "ok", "failed": "failed", "unknown": "unknown"}[o.status]
         items.append(Item(o.oid, "proved", st, o.seconds, o.detail, o.backend, o.lineno, o.desc,
                           contract=getattr(o, "contract", None), obligation=o))
 
     # ------------------------------------------------------------- ledger
-    proved_ids = sorted({norm_id(i.iid) for i in items if i.label == "proved" and i.status == "ok"})
+    def clause_kind(iid):
+        return any((":%s:" % k) in iid for k in CLAUSE_KINDS)
+    proved_ids = sorted({norm_id(i.iid) for i in items if i.label == "proved" and i.status == "ok" and clause_kind(i.iid)})
     ledger = json.load(open(LEDGER)) if os.path.exists(LEDGER) else {}
     if a.update_ledger:
         ledger[pid] = proved_ids
@@ -204,8 +213,9 @@ def run(pid, tier, seed, a, t0):
     findings = load_findings()
     violations = []
     known = []
-    os.makedirs(os.path.join(VERIF, "replays"), exist_ok=True)
+    os.makedirs(os.path.join(OUT, "replays"), exist_ok=True)
     failed_items = [i for i in items if i.status in ("failed", "unknown")]
+    model_budget = {}
     # a structural mismatch is decided by the stand-in of that function
     for c, e in structural:
         fz = [i for i in items if i.iid == "bounded:%s" % c.key]
@@ -219,27 +229,29 @@ def run(pid, tier, seed, a, t0):
             rec.update(it.replay)
             found = True
         elif it.obligation is not None and it.contract is not None and not it.obligation.expect_sat:
-            try:
-                rr = replay.replay_failed(it.contract, it.obligation)
-            except Exception as e:
-                rr = {"found": False, "tried": ["replay crashed: %r" % e]}
-            if rr.get("found"):
-                rec.update({"contract": it.contract.key, "args": rr["args"], "native": rr["native"], "how": rr["how"]})
+            # directed search first: the function's own bounded stand-in already ran
+            fz = [i for i in items if i.iid == "bounded:%s" % it.contract.key and i.status == "failed"]
+            if fz:
+                rec.update(fz[0].replay)
+                rec["how"] = "directed bounded search on the failing function"
                 found = True
-            else:
-                rec["replay_attempts"] = rr.get("tried")
-                # directed search: the function's own bounded stand-in
-                fz = [i for i in items if i.iid == "bounded:%s" % it.contract.key and i.status == "failed"]
-                if fz:
-                    rec.update(fz[0].replay)
-                    rec["how"] = "directed bounded search on the failing function"
+            elif model_budget.get(it.contract.key, 0) < 2:
+                model_budget[it.contract.key] = model_budget.get(it.contract.key, 0) + 1
+                try:
+                    rr = replay.replay_failed(it.contract, it.obligation, timeout_s=10)
+                except Exception as e:
+                    rr = {"found": False, "tried": ["replay crashed: %r" % e]}
+                if rr.get("found"):
+                    rec.update({"contract": it.contract.key, "args": rr["args"], "native": rr["native"], "how": rr["how"]})
                     found = True
+                else:
+                    rec["replay_attempts"] = rr.get("tried")
         rec["found_input"] = found
         sig = finding_match(findings, pid, it, rec)
         if sig is not None:
             known.append((it, sig))
             continue
-        path = os.path.join(VERIF, "replays", "%s-%s.json" % (pid, re.sub(r"[^A-Za-z0-9_.-]+", "_", it.iid)[:120]))
+        path = os.path.join(OUT, "replays", "%s-%s.json" % (pid, re.sub(r"[^A-Za-z0-9_.-]+", "_", it.iid)[:120]))
         json.dump(rec, open(path, "w"), indent=1, default=str)
         violations.append((it, path, found))
 
@@ -344,8 +356,8 @@ def write_evidence(pid, P, tier, seed, items, functions, solver_s, xcheck, struc
         "wall_s": round(wall, 2),
         "violations": len(violations),
     }
-    os.makedirs(os.path.join(VERIF, "evidence"), exist_ok=True)
-    json.dump(ev, open(os.path.join(VERIF, "evidence", "%s.json" % pid), "w"), indent=1, default=str)
+    os.makedirs(os.path.join(OUT, "evidence"), exist_ok=True)
+    json.dump(ev, open(os.path.join(OUT, "evidence", "%s.json" % pid), "w"), indent=1, default=str)
 
 
 GLOBAL_TRUSTED = [
